@@ -74,16 +74,38 @@ def _child(ops, seedtxt):
                 ok += 1
         return "yes" if ok == len(conns) else "no"
 
+    # every FakeSnow instance patch() makes is recorded (from outside: patch() looks the class up in its module's namespace),
+    # so that "the instance of a patch() that failed while setting up is shut down" can be observed
+    made = []
+
+    class _Recorded(fakesnow.FakeSnow):
+        def __init__(self, *a, **kw):
+            super().__init__(*a, **kw)
+            made.append(self)
+
+    fakesnow.FakeSnow = _Recorded
+
+    def instances_closed(since):
+        for inst in made[since:]:
+            try:
+                inst.duck_conn.execute("select 1")
+                return "no"
+            except Exception:
+                pass
+        return "yes"
+
     try:
         for op in ops:
             k = op["k"]
             argv = []
             if k == "enter":
                 new = fakesnow.patch(KIND_TARGET[op["kind"]])
+                n0 = len(made)
                 try:
                     new.__enter__()
                 except BaseException:
-                    obs = {"res": "raised", "std": std(), "extra": extra(kind) if cm is not None else "na", "closed": "na"}
+                    obs = {"res": "raised", "std": std(), "extra": extra(kind) if cm is not None else "na",
+                           "closed": "na" if cm is not None else instances_closed(n0)}
                 else:
                     if cm is None:
                         cm, kind, conns = new, op["kind"], []
